@@ -30,9 +30,10 @@ Definition in_boxb (p0 p1 q : pt) : bool :=
 
 Definition manhattan_segb (a b : pt) : bool := (px a =? px b) || (py a =? py b).
 Definition near_segb (w : Z) (a b q : pt) : bool :=
-  ((px a =? px b) && (Z.min (py a) (py b) <=? py q) && (py q <=? Z.max (py a) (py b))
+  on_segb a b q
+  || ((px a =? px b) && negb (py a =? py b) && (Z.min (py a) (py b) <=? py q) && (py q <=? Z.max (py a) (py b))
      && (2 * Z.abs (px q - px a) <=? w))
-  || ((py a =? py b) && (Z.min (px a) (px b) <=? px q) && (px q <=? Z.max (px a) (px b))
+  || ((py a =? py b) && negb (px a =? px b) && (Z.min (px a) (px b) <=? px q) && (px q <=? Z.max (px a) (px b))
      && (2 * Z.abs (py q - py a) <=? w)).
 Definition far_segb (w : Z) (a b q : pt) : bool := w <? 2 * cheb_seg a b q.
 
